@@ -150,7 +150,7 @@ theorem readItem_spec (upper : String → String) (c : Char) (r : List Char) (of
     have hcont := wordStart_cont c hw
     refine ⟨(c :: r).takeWhile isWordCont, ?_, ?_, rfl, ?_, ?_, by simp⟩
     · simp only [List.takeWhile_append_dropWhile]
-    · simp [List.takeWhile_cons, hcont]
+    · simp [hcont]
     · symm; apply recNl_noNl
       intro d hd
       exact wordCont_noNl d (mem_takeWhile_imp hd)
@@ -166,7 +166,7 @@ theorem readItem_spec (upper : String → String) (c : Char) (r : List Char) (of
     · simp only [hn, if_true]
       have hcont := numStart_cont c hn
       have hne : (c :: r).takeWhile isNumCont = c :: r.takeWhile isNumCont := by
-        simp [List.takeWhile_cons, hcont]
+        simp [hcont]
       refine ⟨(c :: r).takeWhile isNumCont, ?_, ?_, rfl, ?_, ?_, by simp⟩
       · simp only [List.takeWhile_append_dropWhile]
       · simp [hne]
@@ -177,7 +177,7 @@ theorem readItem_spec (upper : String → String) (c : Char) (r : List Char) (of
         simp only [Sum.inl.injEq] at ht
         subst ht
         rw [hne]
-        exact tokFacts_nonword upper c _ off lp _ hw rfl (by simp [mkToken, hne]) rfl (fun _ _ => by simp [mkToken, hne])
+        exact tokFacts_nonword upper c _ off lp _ hw rfl (by simp [mkToken]) rfl (fun _ _ => by simp [mkToken])
     · simp only [hn, Bool.false_eq_true, if_false]
       exact readSymbol_spec upper c r off lp hc hw
 
